@@ -18,17 +18,17 @@ class C18(Prop):
     TECHNIQUE = ("fault enumeration: Hypothesis-generated write histories x EVERY cut of the recorded program-ordered write log "
                  "(block granularity exhaustively, byte granularity inside appends), reopen + full observation + subset oracle")
     RULE = ("cases = one case per (history, cut). Histories are Hypothesis-generated write histories on an on-disk index whose "
-            "FileStorage.write calls are logged in program order; for EACH history EVERY cut after a logged write is taken "
+            "FileStorage.write calls and store truncations (open 'wb+' in clear() / overwrite) are logged in program order; for EACH history EVERY cut after a logged write is taken "
             "(exhaustive at block granularity), plus cuts inside each appending write (quick: 3 byte offsets; thorough: 9, and "
             "all 127 for the first twelve appends), plus the cut between the two file creations. The files are rebuilt from the log "
             "prefix and opened with the rules re-supplied: a TraphException is accepted only if a file is not a whole number "
             "of blocks or one store is missing; otherwise the full observation layer (every traversal and query) must run "
-            "without any exception and report only pages (crawled only if finally crawled) and link weights that the completed "
-            "history also reports. non-trivial = the cut lies strictly inside a write request; distinct = (history, cut).")
+            "without any exception and report only pages (with their marks) and link weights that the completed history "
+            "holds just before or just after the interrupted request. non-trivial = the cut lies strictly inside a write request; distinct = (history, cut).")
     MODES = ("url", "mixed", "raw")
     LONG_BIAS = 0.4
     WEIGHTS = {"page": 4, "pages": 2, "links": 3, "batch": 3, "again": 1, "create": 2, "delete": 1, "addprefix": 1,
-               "rmprefix": 1, "move": 1, "rule": 2, "unrule": 1, "reopen": 1, "clear": 0}
+               "rmprefix": 1, "move": 1, "rule": 2, "unrule": 1, "reopen": 1, "clear": 1, "recreate": 1}
     QUICK = (3, 9)
     THOROUGH = (30, 16)
     LEVEL_TEXT = ("Fault enumeration: for each generated history every crash point of the program-ordered write log is "
@@ -48,10 +48,12 @@ class C18(Prop):
         case.idx.open(True, dict(case.idx.rules))
         case.state["rec"].mark()
         case.state["rules_after"] = [dict(case.led.rules)]
+        case.state["truth"] = [({}, {})]      # what the history has submitted after each request (index 0 = creation)
 
     def after_op(self, case, op, out, pre):
         case.state["rec"].mark()
         case.state["rules_after"].append(dict(case.led.rules))
+        case.state["truth"].append((dict(case.led.pages), dict(case.led.links)))
 
     def end(self, case):
         rec = case.state["rec"]
@@ -77,6 +79,21 @@ class C18(Prop):
                         return i
                 return len(marks) - 1
             # special cut: between the two file creations
+            truth = case.state["truth"]
+
+            def ref(oi):
+                """pages (crawled if crawled on either side) and link weights (the larger) that the completed history holds just
+                before or just after request number oi; with clear()/re-creation in the history the FINAL state is no longer a
+                superset of the earlier ones, so the reference is taken around the interrupted request"""
+                lo, hi = truth[max(0, min(oi - 1, len(truth) - 1))], truth[max(0, min(oi, len(truth) - 1))]
+                pg = dict(lo[0])
+                for p_, c_ in hi[0].items():
+                    pg[p_] = pg.get(p_, False) or c_
+                w_ = dict(lo[1])
+                for e_, x_ in hi[1].items():
+                    w_[e_] = max(w_.get(e_, 0), x_)
+                return pg, w_
+            final_pages, final_w = ref(0)
             self.check_cut(case, scratch, b"", None, lrus, default, {}, final_pages, final_w, "between-file-creations")
             ctx.extra["cuts_special"] += 1
             nappends = 0
@@ -85,6 +102,7 @@ class C18(Prop):
                 rules = dict(case.state["rules_after"][max(0, oi - 1)])
                 rules.update(case.state["rules_after"][min(oi, len(case.state["rules_after"]) - 1)])
                 inside = k not in marks and k != 0 and k != n
+                final_pages, final_w = ref(oi)
                 trie, link = rec.rebuild(k)
                 self.check_cut(case, scratch, trie, link, lrus, default, rules, final_pages, final_w, "after-write-%d-of-%d" % (k, n))
                 ctx.extra["cuts_block"] += 1
@@ -109,6 +127,8 @@ class C18(Prop):
         finally:
             shutil.rmtree(scratch, ignore_errors=True)
         for which, off, data, grows in rec.log:
+            if off == -1:
+                case.flag("truncation-logged")
             if which == "trie" and grows and len(data) == 128 and data[75] & 64:
                 case.flag("tail-block-written")
 
